@@ -227,6 +227,10 @@ def run_large(rep, thorough, families):
             lim = '-1' if l == 'null' else l
             cs.append(('topn-big:%s:%s' % (l, o), 'topn', {'sort+limit': '(limit %s %s (order %s %s))' % (l, o, ks, L), 'top-n': '(topn %s %s %s %s)' % (l, o, ks, L)},
                        'SELECT c0, c1 FROM t1 ORDER BY %s LIMIT %s OFFSET %s' % (ksql, lim, o), True))
+        # LIMIT / OFFSET windows that start, end or lie beyond a chunk boundary (input order = insertion order)
+        for l, o in (('1100', '5'), ('10', '1500'), ('null', '1030'), ('1024', '1024'), ('1', '1023'), ('2', '2599'), ('5', '2600')):
+            lim = '-1' if l == 'null' else l
+            cs.append(('limit-big:%s:%s' % (l, o), 'topn', {'limit': '(limit %s %s %s)' % (l, o, L)}, 'SELECT c0, c1 FROM t1 LIMIT %s OFFSET %s' % (lim, o), True))
     plans = []
     for c in cs:
         for impl, p in c[2].items():
